@@ -406,6 +406,27 @@ func (x *FnCtx) makeInterface(st *State, v Value, t types.Type) Value {
 	if _, ok := t.Underlying().(*types.Interface); ok {
 		return v
 	}
+	x.madeTypes[typeKey(t)] = t
+	// the boxed concrete type implements these standard interfaces (facts used by type assertions)
+	implFacts := func(ref *Term) {
+		for _, sp := range x.eng.prog.AllPackages() {
+			if sp.Pkg.Path() != "io" {
+				continue
+			}
+			for _, n := range []string{"Reader", "Writer", "ByteReader", "ByteWriter"} {
+				if o := sp.Pkg.Scope().Lookup(n); o != nil {
+					if it, ok := o.Type().Underlying().(*types.Interface); ok && types.Implements(t, it) {
+						st.pc = x.tb.And(st.pc, x.tb.UF("implements."+typeKey(o.Type()), BoolSort, x.typeOf(ref)))
+					}
+				}
+			}
+		}
+	}
+	if vt, ok := v.(*Term); ok {
+		if _, isPtr := t.Underlying().(*types.Pointer); isPtr {
+			defer implFacts(vt)
+		}
+	}
 	switch vv := v.(type) {
 	case *Term:
 		if _, isPtr := t.Underlying().(*types.Pointer); isPtr {
@@ -448,6 +469,17 @@ func (x *FnCtx) typeAssert(fr *Frame, st *State, in *ssa.TypeAssert) Value {
 		if len(impl) == 0 || x.eng.openInterface(at) {
 			okc = tb.UF("implements."+typeKey(at), BoolSort, x.typeOf(ref))
 			okc = tb.And(okc, tb.Ne(ref, tb.IntC(0)))
+			// concrete types boxed in this function, and the operand's own static interface type
+			for _, k := range sortedKeys(x.madeTypes) {
+				mt := x.madeTypes[k]
+				if types.Implements(mt, at.Underlying().(*types.Interface)) {
+					x.axiom(tb.Implies(tb.Eq(x.typeOf(ref), x.typeTag(mt)), tb.UF("implements."+typeKey(at), BoolSort, x.typeOf(ref))))
+				}
+			}
+			if st0, ok := in.X.Type().Underlying().(*types.Interface); ok && types.Implements(in.X.Type(), at.Underlying().(*types.Interface)) {
+				_ = st0
+				x.axiom(tb.Implies(tb.Ne(ref, tb.IntC(0)), tb.UF("implements."+typeKey(at), BoolSort, x.typeOf(ref))))
+			}
 			for _, c := range cs {
 				x.axiom(tb.Implies(c, tb.UF("implements."+typeKey(at), BoolSort, x.typeOf(ref))))
 			}
@@ -623,6 +655,20 @@ func (x *FnCtx) copyElems(st *State, dst, src SliceV, n *Term, et types.Type) {
 	m := x.heapGet(st.heap, name, x.contentsSort(et))
 	d := x.sel(m, dst.Arr)
 	s := x.sel(m, src.Arr)
+	if n.IsConst() && n.Val.IsInt64() && n.Val.Int64() <= 32 {
+		// short constant-length copy: explicit element stores (all sources are read first: memmove)
+		k := n.Val.Int64()
+		vals := make([]*Term, k)
+		for i := int64(0); i < k; i++ {
+			vals[i] = x.sel(s, x.iadd(src.Off, x.idx(i)))
+		}
+		nd := d
+		for i := int64(0); i < k; i++ {
+			nd = tb.Store(nd, x.iadd(dst.Off, x.idx(i)), vals[i])
+		}
+		st.heap.m[name] = tb.Store(m, dst.Arr, nd)
+		return
+	}
 	nc := tb.mk("copyarr", d.Sort, "", nil, d, dst.Off, s, src.Off, n)
 	st.heap.m[name] = tb.Store(m, dst.Arr, nc)
 }
